@@ -80,6 +80,36 @@ Section ListFacts.
   Proof. destruct l; [congruence | eauto]. Qed.
   Lemma Forall2_len {B} (P : A -> B -> Prop) l l' : Forall2 P l l' -> length l = length l'.
   Proof. induction 1; cbn; congruence. Qed.
+  Lemma take_turn_spec i : forall (ths : list (list A)) u ths',
+    take_turn i ths = (u, ths') ->
+    length ths' = length ths /\
+    match u with
+    | Some x => exists pre th post, ths = pre ++ (x :: th) :: post /\ ths' = pre ++ th :: post /\ length pre = i
+    | None => ths' = ths
+    end.
+  Proof.
+    induction i as [|i IH]; intros [|[|x th] rest] u ths' H; cbn in H; try (injection H as <- <-; auto).
+    - split; [reflexivity|]. exists [], th, rest. auto.
+    - destruct (take_turn i rest) as [u0 rest'] eqn:E. injection H as <- <-. destruct (IH _ _ _ E) as [L S].
+      split; [cbn; now rewrite L|]. destruct u0 as [x|]; [|now subst].
+      destruct S as [pre [th [post [-> [-> Hl]]]]]. exists ([] :: pre), th, post. cbn. auto.
+    - destruct (take_turn i rest) as [u0 rest'] eqn:E. injection H as <- <-. destruct (IH _ _ _ E) as [L S].
+      split; [cbn; now rewrite L|]. destruct u0 as [y|]; [|now subst].
+      destruct S as [pre [th0 [post [-> [-> Hl]]]]]. exists ((x :: th) :: pre), th0, post. cbn. auto.
+  Qed.
+
+  (* a merged history only contains units of the sessions, each at most as often as the sessions hold it *)
+  Lemma merge_sub sched : forall (ths : list (list A)),
+    exists rest, Permutation (merge sched ths ++ concat rest) (concat ths).
+  Proof.
+    induction sched as [|i sched IH]; intros ths; cbn; [exists ths; reflexivity|].
+    destruct (take_turn i ths) as [u ths'] eqn:E. destruct (take_turn_spec i ths u ths' E) as [_ S].
+    destruct u as [x|].
+    - destruct S as [pre [th [post [-> [-> _]]]]]. destruct (IH (pre ++ th :: post)) as [rest P]. exists rest.
+      cbn. rewrite concat_app. cbn. rewrite concat_app in P. cbn in P.
+      apply Permutation_cons_app with (a := x) in P. exact P.
+    - subst ths'. apply IH.
+  Qed.
 End ListFacts.
 
 Section Proofs.
@@ -90,6 +120,10 @@ Section Proofs.
   Variable keyfn : KId -> V -> K.
   Variable from_row : R -> V.
   Variable update_with_row : R -> V -> V.
+  Variable add_row : R -> V -> V.
+  Variable delete_row : R -> V -> V.
+  Variable row_view : V -> V.
+  Variable rows_view : V -> list V.
   Variable keyers : list KId.
 
   Hypothesis Hcontract : contract keq kideq equals keyfn keyers.
@@ -109,14 +143,16 @@ Section Proofs.
   Local Notation isget_many := (@is_get_many V K KId keq kideq keyers).
   Local Notation sremove_many := (@s_remove_many V K KId keq kideq keyfn keyers).
   Local Notation sget_many := (@s_get_many V K KId keq kideq keyfn keyers).
-  Local Notation stepN := (@step V K KId R keq kideq equals keyfn from_row update_with_row keyers).
-  Local Notation sstepN := (@sstep V K KId R keq kideq equals keyfn from_row update_with_row keyers).
-  Local Notation execN := (@exec V K KId R keq kideq equals keyfn from_row update_with_row keyers).
-  Local Notation sexecN := (@sexec V K KId R keq kideq equals keyfn from_row update_with_row keyers).
-  Local Notation sexec_setN := (@sexec_set V K KId R keq kideq equals keyfn from_row update_with_row keyers).
-  Local Notation sstep_setN := (@sstep_set V K KId R keq kideq equals keyfn from_row update_with_row keyers).
-  Local Notation no_dup_putN := (@no_dup_put V K KId R keq kideq equals keyfn from_row update_with_row keyers).
+  Local Notation stepN := (@step V K KId R keq kideq equals keyfn from_row update_with_row add_row delete_row row_view rows_view keyers).
+  Local Notation sstepN := (@sstep V K KId R keq kideq equals keyfn from_row update_with_row add_row delete_row row_view rows_view keyers).
+  Local Notation execN := (@exec V K KId R keq kideq equals keyfn from_row update_with_row add_row delete_row row_view rows_view keyers).
+  Local Notation sexecN := (@sexec V K KId R keq kideq equals keyfn from_row update_with_row add_row delete_row row_view rows_view keyers).
+  Local Notation sexec_setN := (@sexec_set V K KId R keq kideq equals keyfn from_row update_with_row add_row delete_row row_view rows_view keyers).
+  Local Notation sstep_setN := (@sstep_set V K KId R keq kideq equals keyfn from_row update_with_row add_row delete_row row_view rows_view keyers).
+  Local Notation no_dup_putN := (@no_dup_put V K KId R keq kideq equals keyfn from_row update_with_row add_row delete_row row_view rows_view keyers).
   Local Notation initN := (@is_init V K KId keyers).
+  Local Notation mchange := (@m_change V K KId R keq kideq equals keyfn from_row keyers).
+  Local Notation schange := (@s_change V K KId R keq equals keyfn from_row keyers).
 
   Let keq_spec : forall a b, keq a b = true <-> a = b := proj1 Hcontract.
   Let kideq_spec : forall a b, kideq a b = true <-> a = b := proj1 (proj2 Hcontract).
@@ -405,6 +441,17 @@ Section Proofs.
     exists kid, m, st. cbn. rewrite (proj2 (kideq_spec kid kid) eq_refl). auto.
   Qed.
 
+  Lemma m_change_refines f st c r : keyers <> [] -> Inv st c ->
+    Inv (fst (mchange f st r)) (fst (schange f c r)) /\ snd (mchange f st r) = snd (schange f c r).
+  Proof.
+    intros Hne H. destruct (inv_head c st Hne H) as [k0 [m0 [st0 [Hk0 [Hin0 [Est [W0 Hex]]]]]]].
+    unfold m_change, s_change. rewrite Hk0. rewrite (is_get_many_inv c st k0 _ H). unfold s_get_many. rewrite Hex.
+    destruct (filter (hk k0 (keyfn k0 (from_row r))) c) as [|e1 [|e2 es]]; cbn.
+    - split; [exact H | reflexivity].
+    - split; [apply inv_put; now apply inv_remove | reflexivity].
+    - split; [exact H | reflexivity].
+  Qed.
+
   (* ---------- one step ---------- *)
   Lemma step_refines st c o : keyers <> [] -> Inv st c ->
     Inv (fst (stepN st o)) (fst (sstepN c o)) /\ obs_equiv (snd (stepN st o)) (snd (sstepN c o)).
@@ -439,6 +486,21 @@ Section Proofs.
       + split; [now apply inv_put | constructor].
       + split; [apply inv_put; now apply inv_remove | constructor].
       + split; [now apply inv_put | constructor].
+    - rewrite Hk0. destruct (m_change_refines add_row st c r Hne H) as [I E].
+      destruct (mchange add_row st r) as [st' e]. destruct (schange add_row c r) as [c' e']. cbn in *. subst e'.
+      split; [exact I | constructor].
+    - rewrite Hk0. destruct (m_change_refines delete_row st c r Hne H) as [I E].
+      destruct (mchange delete_row st r) as [st' e]. destruct (schange delete_row c r) as [c' e']. cbn in *. subst e'.
+      split; [exact I | constructor].
+    - rewrite Hk0. destruct (m_change_refines delete_row st c old Hne H) as [I E].
+      destruct (mchange delete_row st old) as [st1 e1]. destruct (schange delete_row c old) as [c1 e1']. cbn in *. subst e1'.
+      destruct e1; cbn; [split; [exact I | constructor]|].
+      destruct (m_change_refines add_row st1 c1 new Hne I) as [I2 E2].
+      destruct (mchange add_row st1 new) as [st2 e2]. destruct (schange add_row c1 new) as [c2 e2']. cbn in *. subst e2'.
+      split; [exact I2 | constructor].
+    - split; [eapply inv_clear; exact H|]. unfold is_count. rewrite (Permutation_length (visit_perm c st Hne H)). constructor.
+    - split; [exact H|]. constructor. apply Permutation_map. now apply visit_perm.
+    - split; [exact H|]. constructor. apply Permutation_flat_map. now apply visit_perm.
   Qed.
 
   Lemma exec_refines ops : keyers <> [] -> forall st c, Inv st c ->
@@ -537,10 +599,22 @@ Section Proofs.
           intros E; injection E as ->. now left. }
         destruct (existsb _ c) eqn:X; cbn; [exact U|]. apply uniq_snoc; [exact U|].
         now apply (existsb_equals_key c k0).
-      - destruct (first_keyer keyers) as [k0|]; [|exact U]. cbn. now apply FOP_filter. }
+      - destruct (first_keyer keyers) as [k0|]; [|exact U]. cbn. now apply FOP_filter.
+      - constructor. }
     destruct (sstepN c o) as [c' ob]. cbn in *. specialize (IH c' Hops U' H2).
     destruct (sexecN c' ops). exact IH.
   Qed.
+
+  (* the locking wrappers: whatever the interleaving of whole operations (OperationLockingTableEditor) or of whole
+     statements (StatementLockingTableEditor) of any number of sessions, the history refines the bag *)
+  Theorem locked_ops_any_interleaving (sessions : list (list (@op V K KId R))) sched : keyers <> [] ->
+    Forall2 (@obs_equiv V) (snd (execN initN (merge sched sessions))) (snd (sexecN [] (merge sched sessions))).
+  Proof. intros Hne. now apply refinement. Qed.
+
+  Theorem locked_statements_any_interleaving (sessions : list (list (list (@op V K KId R)))) sched : keyers <> [] ->
+    Forall2 (@obs_equiv V) (snd (execN initN (concat (merge sched sessions))))
+            (snd (sexecN [] (concat (merge sched sessions)))).
+  Proof. intros Hne. now apply refinement. Qed.
 
   (* Insert/Delete keep the first keyer a primary key (as long as nobody Puts directly and no Update runs) *)
   Theorem pk_uniq_preserved ops : forall c, forallb (@pk_safe_op V K KId R) ops = true ->
@@ -558,7 +632,8 @@ Section Proofs.
         apply FOP_snoc; [exact U|]. intros a Ha. destruct (keq (keyfn k0 a) (keyfn k0 (from_row r))) eqn:Q; [|reflexivity].
         assert (existsb (hk k0 (keyfn k0 (from_row r))) c = true); [|congruence].
         apply existsb_exists. exists a. split; [exact Ha | exact Q].
-      - rewrite Ek. cbn. now apply FOP_filter. }
+      - rewrite Ek. cbn. now apply FOP_filter.
+      - constructor. }
     destruct (sstepN c o) as [c' ob]. cbn in *. specialize (IH c' Hops U').
     destruct (sexecN c' ops). exact IH.
   Qed.
@@ -622,3 +697,11 @@ Proof.
   exists [OpInsert (1, 1, 1); OpInsert (2, 2, 2); OpUpdate (1, 1, 1) (2, 1, 1)]%N.
   split; [reflexivity|]. split; [apply mask_contract; reflexivity | vm_compute; reflexivity].
 Qed.
+
+(* MultiUpdate is not atomic: when MultiDelete(old) succeeds and MultiInsert(new) finds no entry, the error is
+   returned and the deletion stays *)
+Example multi_update_partial_effect :
+  exec4 3 [1; 2]%N [OpPut (1, 1, 3, 7); OpMUpdate (1, 9, 1) (2, 9, 1); OpMRows; OpMInsert (1, 9, 1); OpMRows; OpTruncate; OpCount]%N
+  = ([[]; []],
+     [ONone; OErr true; OBag [(1, 1, 2, 0)]; OErr false; OBag [(1, 1, 1, 0); (1, 1, 2, 0)]; OCount 1; OCount 0])%N.
+Proof. vm_compute. reflexivity. Qed.
